@@ -77,6 +77,28 @@ class Judgement:
     info: Optional[dict] = None
 
 
+def fallback_band(a, b):
+    """Numerical band for a decision taken by the fallback solver (SCS, default eps = 1e-4).
+
+    SCS's tolerances are relative to the magnitude of the *scaled* problem data.  For the
+    constraint |Sigma^-1/2 (x - c)| <= alpha that magnitude is |Sigma^-1/2| |c|, so a feasibility
+    error of eps inflates the region by about eps |c| sqrt(cond Sigma) in real units; for boxes by
+    about eps (1 + |bounds|).  Decisions closer to the boundary than 20x that are SCS accuracy, not
+    behaviour of the code under test, and are not judged."""
+    eps = 1e-4
+    k = 1.0
+    mag = 1.0
+    for r in (a, b):
+        if isinstance(r, Rect):
+            mag = max(mag, 1.0 + float(np.max(np.maximum(np.abs(r.lower), np.abs(r.upper)))))
+        else:
+            w = np.linalg.eigvalsh((r.sigma + r.sigma.T) / 2)
+            lo = max(float(w[0]), 1e-300)
+            k = max(k, math.sqrt(float(w[-1]) / lo))
+            mag = max(mag, 1.0 + float(np.max(np.abs(r.center))) + float(r.alpha) * math.sqrt(float(w[-1])))
+    return (1e-3, 20 * eps * mag * k)
+
+
 def decide(j: Judgement, rel: float, abs_: float = 0.0) -> Optional[bool]:
     """True iff margin certainly >= 0 outside the band, False iff certainly < 0, else None."""
     if j.exact:
